@@ -1,7 +1,6 @@
 import Cppcms.C09.Linz
 import Cppcms.C09.Progress
 import Cppcms.C09.Judge
-import Cppcms.C07.Props
 /-!
 # C09 — property theorems
 
@@ -12,7 +11,8 @@ interleaving model of `Model.lean`, whose instruction lists are **generated** fr
 `race_free`, `lock_order`, `no_nested_locking`, `hooks_at_linearization_points`,
 `process_variant_same`; they justify the model's atomic segments) are in `TableProps.lean`, same
 namespace, in a module of their own so that a change of the source's guard structure shows which
-of them became false even when the proofs below no longer build.  See design.d/C09.md for what is and is not covered (data-race freedom of
+of them became false even when the proofs below no longer build.  The two corollaries that go through
+C07's theorems (`fetch_hit_is_latest_store`, `no_value_after_trigger_rise`) are in `FetchProps.lean`.  See design.d/C09.md for what is and is not covered (data-race freedom of
 the compiled accesses and the pthread primitives: TSan on explored schedules only — PARTIAL).
 -/
 namespace Cppcms.C09.Props
@@ -27,30 +27,30 @@ effect), replaying it through the sequential cache gives exactly the answers the
 returned, it respects real-time order — and the final shared state **equals** the state of that
 sequential replay, LRU order included (the linearisation point of a fetch that hits is its
 `lru_mutex` section). -/
-theorem linearizable (s₀ : State) (progs : List (List Op)) (sched : List Nat) :
+theorem linearizable (s₀ : XState) (progs : List (List XOp)) (sched : List Nat) :
     LinearizedBy s₀ (run (Config.init s₀ progs) sched).history (run (Config.init s₀ progs) sched).order ∧
     (run (Config.init s₀ progs) sched).s =
-      C07.run s₀ ((run (Config.init s₀ progs) sched).order.map (·.op)) :=
+      xrun s₀ ((run (Config.init s₀ progs) sched).order.map (·.op)) :=
   ⟨linearizedBy_of_inv (inv_reachable s₀ progs sched), (inv_reachable s₀ progs sched).state_eq⟩
 
 /-- the observable history of every run is linearizable (Herlihy–Wing) w.r.t. the sequential cache -/
-theorem history_linearizable (s₀ : State) (progs : List (List Op)) (sched : List Nat) :
+theorem history_linearizable (s₀ : XState) (progs : List (List XOp)) (sched : List Nat) :
     Linearizable s₀ (run (Config.init s₀ progs) sched).history :=
   ⟨_, (linearizable s₀ progs sched).1⟩
 
 /-- operation ids of a run's history are unique (so `LinearizedBy` speaks about one record per id) -/
-theorem history_well_formed (s₀ : State) (progs : List (List Op)) (sched : List Nat) :
+theorem history_well_formed (s₀ : XState) (progs : List (List XOp)) (sched : List Nat) :
     WellFormed (run (Config.init s₀ progs) sched).history :=
   wellFormed_of_inv (inv_reachable s₀ progs sched)
 
 /-- the judge run by the check on histories recorded from the real code (`c09_model`, `end` lines)
 evaluates exactly the predicate of `linearizable` -/
-theorem judge_is_predicate (s₀ : State) (recs : List Rec) (order : List Lin) :
+theorem judge_is_predicate (s₀ : XState) (recs : List Rec) (order : List Lin) :
     checkLin s₀ recs order = none ↔ LinearizedBy s₀ recs order := checkLin_iff s₀ recs order
 
 /-- no operation ever returns the model's `undefined` (a read through an iterator whose element
 is gone, or no result): every completed operation returned an answer of the sequential cache -/
-theorem no_undefined_result (s₀ : State) (progs : List (List Op)) (sched : List Nat)
+theorem no_undefined_result (s₀ : XState) (progs : List (List XOp)) (sched : List Nat)
     (r : Rec) (hr : r ∈ (run (Config.init s₀ progs) sched).history) (t : Nat) (ret : Ret)
     (hresp : r.resp = some (t, ret)) : ∃ o, ret = .ok o := by
   have hc := (linearizable s₀ progs sched).1.complete r hr
@@ -61,50 +61,69 @@ theorem no_undefined_result (s₀ : State) (progs : List (List Op)) (sched : Lis
 
 /-! ## what a fetch can return -/
 
-theorem seqOuts_split (s : State) (l₁ : List Op) (op : Op) (l₂ : List Op) :
+theorem seqOuts_split (s : XState) (l₁ : List XOp) (op : XOp) (l₂ : List XOp) :
     seqOuts s (l₁ ++ op :: l₂) =
-      seqOuts s l₁ ++ (C07.step (C07.run s l₁) op).2 :: seqOuts (C07.step (C07.run s l₁) op).1 l₂ := by
+      seqOuts s l₁ ++ (xstep (xrun s l₁) op).2 :: seqOuts (xstep (xrun s l₁) op).1 l₂ := by
   induction l₁ generalizing s with
-  | nil => simp [seqOuts, C07.run]
+  | nil => simp [seqOuts, xrun]
   | cons o os ih =>
     simp only [List.cons_append, seqOuts, ih]
-    simp [C07.run]
+    simp [xrun]
 
-theorem seqOuts_length (s : State) (l : List Op) : (seqOuts s l).length = l.length := by
+theorem seqOuts_length (s : XState) (l : List XOp) : (seqOuts s l).length = l.length := by
   induction l generalizing s with
   | nil => rfl
   | cons o os ih => simp [seqOuts, ih]
 
-/-- the claimed answer of an element of a legal order is the sequential cache's answer after the
+/-- the claimed answer of an element of a legal order is the sequential object's answer after the
 operations before it -/
-theorem answer_at {s₀ : State} {pre post : List Lin} {e : Lin}
+theorem answer_at {s₀ : XState} {pre post : List Lin} {e : Lin}
     (legal : seqOuts s₀ ((pre ++ e :: post).map (·.op)) = (pre ++ e :: post).map (·.out)) :
-    (C07.step (C07.run s₀ (pre.map (·.op))) e.op).2 = e.out := by
+    (xstep (xrun s₀ (pre.map (·.op))) e.op).2 = e.out := by
   rw [List.map_append, List.map_cons, List.map_append, List.map_cons, seqOuts_split] at legal
   have hl : (seqOuts s₀ (pre.map (·.op))).length = (pre.map (·.out)).length := by
     rw [seqOuts_length]; simp
   have := (List.append_inj legal hl).2
   exact (List.cons.inj this).1
 
-/-- **No torn value, no value of another key, nothing stale.**  A completed `fetch now k` that
-returned a hit `(v, trg, d, g)` on a cache started empty: the linearization splits at that fetch,
-and among the operations linearized before it there is a `store` of *that key* with exactly that
-value and deadline, with trigger set `trg` (the given triggers plus the key), stamped `g`, such
-that no operation linearized between that store and the fetch stores or removes `k`, clears, or
-raises a member of `trg`; and the deadline had not passed. -/
-theorem fetch_hit_is_latest_store (limit : Nat) (progs : List (List Op)) (sched : List Nat)
-    (r : Rec) (hr : r ∈ (run (Config.init (State.init limit) progs) sched).history)
-    (now : Time) (k : Key) (hop : r.op = .fetch now k)
-    (tr : Nat) (v : Val) (trg : List Key) (d : Time) (g : Gen)
-    (hresp : r.resp = some (tr, .ok (.hit v trg d g))) :
-    ∃ pre e post, (run (Config.init (State.init limit) progs) sched).order = pre ++ e :: post ∧
-      e.tid = r.tid ∧ e.idx = r.idx ∧
-      ∃ pre' post' now₀ trigs gen env,
-        pre.map (·.op) = pre' ++ Op.store now₀ k v trigs d gen env :: post' ∧
-        trg = ownTrigs k trigs ∧
-        stamp (C07.run (State.init limit) pre') (Op.store now₀ k v trigs d gen env) = some g ∧
-        (∀ op ∈ post', op.invalidates k trg = false) ∧ ¬ d < now := by
-  have lin := (linearizable (State.init limit) progs sched).1
+/-! ## the reference count -/
+
+def isAdd (e : Lin) : Bool := e.op == .addRef
+def isDel (e : Lin) : Bool := e.op == .delRef
+
+theorem xrun_refs (s : XState) (ops : List XOp) :
+    (xrun s ops).refs = s.refs + (ops.filter (· == .addRef)).length - (ops.filter (· == .delRef)).length := by
+  induction ops generalizing s with
+  | nil => simp [xrun]
+  | cons o os ih =>
+    have h1 : xrun s (o :: os) = xrun (xstep s o).1 os := rfl
+    rw [h1, ih]
+    cases o with
+    | cache op => simp [xstep]
+    | addRef => simp [xstep]; omega
+    | delRef => simp [xstep]; omega
+
+/-- **The reference count counts the handles.**  In every reachable configuration `refs` is the
+initial count plus the number of `add_ref`s minus the number of `del_ref`s that have taken effect. -/
+theorem refs_counts_handles (s₀ : XState) (progs : List (List XOp)) (sched : List Nat) :
+    (run (Config.init s₀ progs) sched).s.refs =
+      s₀.refs + ((run (Config.init s₀ progs) sched).order.filter isAdd).length
+              - ((run (Config.init s₀ progs) sched).order.filter isDel).length := by
+  rw [(linearizable s₀ progs sched).2, xrun_refs]
+  simp only [List.filter_map, List.length_map, Function.comp_def]
+  rfl
+
+/-- **The object is destroyed only by the last handle.**  A completed `del_ref()` that returned
+`true` (the caller then deletes the cache): at its linearization point the number of handles taken
+so far (initial count + `add_ref`s linearized before it) equals the number dropped, this one
+included — no handle exists any more.  Conversely a `del_ref` that returned `false` left at least
+one… (`refs ≠ 0`). -/
+theorem del_ref_true_iff_last (s₀ : XState) (progs : List (List XOp)) (sched : List Nat)
+    (r : Rec) (hr : r ∈ (run (Config.init s₀ progs) sched).history) (hop : r.op = .delRef)
+    (tr : Nat) (last : Bool) (hresp : r.resp = some (tr, .ok (.dropped last))) :
+    ∃ pre e post, (run (Config.init s₀ progs) sched).order = pre ++ e :: post ∧ e.tid = r.tid ∧ e.idx = r.idx ∧
+      (last = true ↔ s₀.refs + (pre.filter isAdd).length = (pre.filter isDel).length + 1) := by
+  have lin := (linearizable s₀ progs sched).1
   have hc := lin.complete r hr
   unfold CompleteIn at hc
   rw [hresp] at hc
@@ -114,109 +133,32 @@ theorem fetch_hit_is_latest_store (limit : Nat) (progs : List (List Op)) (sched 
   rw [hsplit] at legal
   have hans := answer_at legal
   rw [h3, hop] at hans
-  have hout : e.out = .hit v trg d g := by
+  have hout : e.out = .dropped last := by
     injection h4 with h4
     exact h4.symm
   rw [hout] at hans
-  obtain ⟨pre', post', now₀, trigs, gen, env, e1, e2, e3, e4, e5⟩ :=
-    C07.Props.fetch_returns_latest_store limit none (pre.map (·.op)) now k v trg d g hans
-  exact ⟨pre, e, post, hsplit, h1, h2, pre', post', now₀, trigs, gen, env, e1, e2, e3, e4, e5⟩
-
-/-- **No value whose trigger was raised before the fetch began.**  If a `rise t` responded before a
-fetch was invoked, and the fetch hit with `t` among the returned triggers, then the value comes
-from a `store` of that key (same value, deadline, trigger set) that had **not** responded before
-that rise was invoked — i.e. the value was (re)stored concurrently with or after the rise; a
-value stored before the rise began is never returned. -/
-theorem no_value_after_trigger_rise (limit : Nat) (progs : List (List Op)) (sched : List Nat)
-    (rf rr : Rec)
-    (hrf : rf ∈ (run (Config.init (State.init limit) progs) sched).history)
-    (hrr : rr ∈ (run (Config.init (State.init limit) progs) sched).history)
-    (now : Time) (k t : Key) (hopf : rf.op = .fetch now k) (hopr : rr.op = .rise t)
-    (trf trr : Nat) (v : Val) (trg : List Key) (d : Time) (g : Gen) (retr : Ret)
-    (hrespf : rf.resp = some (trf, .ok (.hit v trg d g)))
-    (hrespr : rr.resp = some (trr, retr))
-    (ht : t ∈ trg) (hbefore : trr < rf.inv) :
-    ∃ rs ∈ (run (Config.init (State.init limit) progs) sched).history,
-      (∃ now₀ trigs gen env, rs.op = Op.store now₀ k v trigs d gen env ∧ trg = ownTrigs k trigs) ∧
-      ∀ ts ret, rs.resp = some (ts, ret) → ¬ ts < rr.inv := by
-  have lin := (linearizable (State.init limit) progs sched).1
-  obtain ⟨pre, ef, post, hsplit, hf1, hf2, pre', post', now₀, trigs, gen, env, e1, e2, _, e4, _⟩ :=
-    fetch_hit_is_latest_store limit progs sched rf hrf now k hopf trf v trg d g hrespf
-  -- the fetch's entry carries the fetch
-  have hefop : ef.op = .fetch now k := by
-    have hc := lin.complete rf hrf
-    unfold CompleteIn at hc
-    rw [hrespf] at hc
-    obtain ⟨e', he', h1, h2, h3, _⟩ := hc
-    have hnd := lin.nodup
-    rw [hsplit] at he' hnd
-    -- e' and ef have the same id in a duplicate-free list
-    have : e' = ef := by
-      rcases List.mem_append.mp he' with hin | hin
-      · exfalso
-        rw [List.map_append, List.map_cons] at hnd
-        have := (List.nodup_append.mp hnd).2.2 (e'.tid, e'.idx) (List.mem_map.mpr ⟨e', hin, rfl⟩) (ef.tid, ef.idx)
-          List.mem_cons_self
-        exact this (by rw [h1, h2, hf1, hf2])
-      · rcases List.mem_cons.mp hin with heq | hin'
-        · exact heq
-        · exfalso
-          rw [List.map_append, List.map_cons] at hnd
-          have := (List.nodup_cons.mp (List.nodup_append.mp hnd).2.1).1
-          exact this (List.mem_map.mpr ⟨e', hin', by show (e'.tid, e'.idx) = (ef.tid, ef.idx); rw [h1, h2, hf1, hf2]⟩)
-    rw [← this, h3, hopf]
-  -- the rise's entry
-  have hcr := lin.complete rr hrr
-  unfold CompleteIn at hcr
-  rw [hrespr] at hcr
-  obtain ⟨er, her, hr1, hr2, hr3, _⟩ := hcr
-  have hrt := lin.realtime
-  rw [hsplit] at her hrt
-  have her_pre : er ∈ pre := by
-    rcases List.mem_append.mp her with hin | hin
-    · exact hin
-    · exfalso
-      rcases List.mem_cons.mp hin with heq | hin'
-      · rw [heq, hefop, hopr] at hr3; cases hr3
-      · have hp := (List.pairwise_cons.mp (List.pairwise_append.mp hrt).2.1).1 er hin'
-        have := hp rf hrf rr hrr hf1.symm hf2.symm hr1.symm hr2.symm
-        rw [hrespr] at this
-        exact this hbefore
-  -- split `pre` at the store
-  obtain ⟨P1, rest, hpre, hP1, hrest⟩ := List.map_eq_append_iff.mp e1
-  obtain ⟨es, P2, hrest', hes, hP2⟩ := List.map_eq_cons_iff.mp hrest
-  subst hpre hrest'
-  have her_P1 : er ∈ P1 := by
-    rcases List.mem_append.mp her_pre with hin | hin
-    · exact hin
-    · exfalso
-      rcases List.mem_cons.mp hin with heq | hin'
-      · rw [heq, hes, hopr] at hr3; cases hr3
-      · have hmem : er.op ∈ post' := by rw [← hP2]; exact List.mem_map.mpr ⟨er, hin', rfl⟩
-        have := e4 _ hmem
-        rw [hr3, hopr] at this
-        simp [Op.invalidates, ht] at this
-  -- the store's record
-  obtain ⟨rs, hrs, hs1, hs2, hs3⟩ := lin.sound es (by rw [hsplit]; simp)
-  refine ⟨rs, hrs, ⟨now₀, trigs, gen, env, by rw [hs3, hes], e2⟩, ?_⟩
-  intro ts ret hresps
-  have hp := (List.pairwise_append.mp (List.pairwise_append.mp hrt).1).2.2 er her_P1 es List.mem_cons_self
-  have := hp rr hrr rs hrs hr1.symm hr2.symm hs1 hs2
-  rw [hresps] at this
-  exact this
+  simp only [xstep, XOut.dropped.injEq] at hans
+  refine ⟨pre, e, post, hsplit, h1, h2, ?_⟩
+  rw [xrun_refs] at hans
+  simp only [List.filter_map, List.length_map, Function.comp_def] at hans
+  have ha : (pre.filter isAdd).length = (pre.filter fun x => x.op == XOp.addRef).length := rfl
+  have hd : (pre.filter isDel).length = (pre.filter fun x => x.op == XOp.delRef).length := rfl
+  rw [ha, hd, ← hans]
+  simp only [decide_eq_true_eq]
+  omega
 
 /-! ## progress -/
 
 /-- **Deadlock freedom.**  In every reachable configuration in which some operation is still to be
 invoked or in flight, some thread can move. -/
-theorem deadlock_free (s₀ : State) (progs : List (List Op)) (sched : List Nat)
+theorem deadlock_free (s₀ : XState) (progs : List (List XOp)) (sched : List Nat)
     (hnd : (run (Config.init s₀ progs) sched).allDone = false) :
     ∃ t c', stepThread (run (Config.init s₀ progs) sched) t = some c' :=
   deadlock_free_of_inv (inv_reachable s₀ progs sched) hnd
 
 /-- every effective step from a reachable configuration decreases `Config.measure`
 (remaining instructions + remaining invocations/responses): no livelock, runs are finite -/
-theorem step_decreases_measure (s₀ : State) (progs : List (List Op)) (sched : List Nat) (t : Nat) (c' : Config)
+theorem step_decreases_measure (s₀ : XState) (progs : List (List XOp)) (sched : List Nat) (t : Nat) (c' : Config)
     (hs : stepThread (run (Config.init s₀ progs) sched) t = some c') :
     c'.measure < (run (Config.init s₀ progs) sched).measure :=
   measure_step (inv_reachable s₀ progs sched) hs
@@ -226,7 +168,7 @@ the schedule completes every operation of every thread program, and (ii) a run t
 continued — no thread can move — has completed all of them.  With `step_decreases_measure`: any
 scheduler that keeps picking a thread that can move reaches that point after at most
 `Config.measure` steps. -/
-theorem every_op_completes (s₀ : State) (progs : List (List Op)) (sched : List Nat) :
+theorem every_op_completes (s₀ : XState) (progs : List (List XOp)) (sched : List Nat) :
     (∃ more, (run (Config.init s₀ progs) (sched ++ more)).allDone = true) ∧
     ((∀ t, stepThread (run (Config.init s₀ progs) sched) t = none) →
       (run (Config.init s₀ progs) sched).allDone = true) := by
@@ -246,44 +188,57 @@ section Examples
 
 private def kA : Key := [97]
 private def tT : Key := [116]
+private def s0 : XState := ⟨State.init 0, 0⟩
 /-- thread 0: store k (trigger t), fetch k; thread 1: fetch k, rise t, fetch k -/
-private def demoProgs : List (List Op) :=
-  [[.store 1000 kA [1, 2, 3] [tT] 2000, .fetch 1000 kA], [.fetch 1000 kA, .rise tT, .fetch 1000 kA]]
+private def demoProgs : List (List XOp) :=
+  [[.cache (.store 1000 kA [1, 2, 3] [tT] 2000), .cache (.fetch 1000 kA)],
+   [.cache (.fetch 1000 kA), .cache (.rise tT), .cache (.fetch 1000 kA)]]
 
 /-- an interleaving in which thread 1's first fetch overlaps thread 0's store (picking a blocked
 thread is a no-op, so the tail just lets everybody finish) -/
 private def demoSched : List Nat :=
   [0, 1, 0, 1, 0, 1, 0, 0, 0, 1, 0, 1, 0, 1, 0, 1, 0, 1, 0, 1] ++ (List.replicate 12 [0, 1]).flatten ++ List.replicate 12 1
 
-private def demo : Config := run (Config.init (State.init 0) demoProgs) demoSched
+private def demo : Config := run (Config.init s0 demoProgs) demoSched
 
 /-- everything completed; five operations were linearized, the threads interleaved -/
 example : demo.allDone = true ∧ demo.order.map (fun e => (e.tid, e.idx, e.stamp)) =
     [(0, 0, 3), (1, 0, 12), (0, 1, 16), (1, 1, 25), (1, 2, 30)] := by decide +kernel
 /-- the executable judge accepts the model's own history (as `linearizable` says it must) -/
-example : checkLin (State.init 0) demo.history demo.order = none := by decide +kernel
+example : checkLin s0 demo.history demo.order = none := by decide +kernel
 /-- hypotheses of `fetch_hit_is_latest_store` are met: thread 1's first fetch — invoked (stamp 1)
 before thread 0's store responded (stamp 5) — hit with the stored value -/
-example : (⟨1, 0, .fetch 1000 kA, 1, some (19, .ok (.hit [1, 2, 3] [kA, tT] 2000 0))⟩ : Rec) ∈ demo.history ∧
-    (⟨0, 0, .store 1000 kA [1, 2, 3] [tT] 2000, 0, some (5, .ok .done)⟩ : Rec) ∈ demo.history := by decide +kernel
+example : (⟨1, 0, .cache (.fetch 1000 kA), 1, some (19, .ok (.cache (.hit [1, 2, 3] [kA, tT] 2000 0)))⟩ : Rec) ∈ demo.history ∧
+    (⟨0, 0, .cache (.store 1000 kA [1, 2, 3] [tT] 2000), 0, some (5, .ok (.cache .done))⟩ : Rec) ∈ demo.history := by decide +kernel
 /-- … and the fetch after the rise misses -/
-example : (⟨1, 2, .fetch 1000 kA, 28, some (32, .ok .miss)⟩ : Rec) ∈ demo.history := by decide +kernel
+example : (⟨1, 2, .cache (.fetch 1000 kA), 28, some (32, .ok (.cache .miss))⟩ : Rec) ∈ demo.history := by decide +kernel
 
 /-- hypotheses of `no_value_after_trigger_rise` are met: rise of `t` responded (9) before the fetch
 was invoked (15); the fetch hit with `t` among its triggers — the value of the store invoked at
 10, after the rise -/
 private def demo2 : Config :=
-  run (Config.init (State.init 0) [[.store 1000 kA [1] [tT] 2000, .store 1000 kA [2] [tT] 2000], [.rise tT, .fetch 1000 kA]])
+  run (Config.init s0 [[.cache (.store 1000 kA [1] [tT] 2000), .cache (.store 1000 kA [2] [tT] 2000)],
+                       [.cache (.rise tT), .cache (.fetch 1000 kA)]])
     (List.replicate 5 0 ++ List.replicate 5 1 ++ List.replicate 5 0 ++ List.replicate 10 1)
-example : (⟨1, 0, .rise tT, 5, some (9, .ok .done)⟩ : Rec) ∈ demo2.history ∧
-    (⟨1, 1, .fetch 1000 kA, 15, some (23, .ok (.hit [2] [kA, tT] 2000 1))⟩ : Rec) ∈ demo2.history ∧
-    (⟨0, 1, .store 1000 kA [2] [tT] 2000, 10, some (14, .ok .done)⟩ : Rec) ∈ demo2.history := by decide +kernel
+example : (⟨1, 0, .cache (.rise tT), 5, some (9, .ok (.cache .done))⟩ : Rec) ∈ demo2.history ∧
+    (⟨1, 1, .cache (.fetch 1000 kA), 15, some (23, .ok (.cache (.hit [2] [kA, tT] 2000 1)))⟩ : Rec) ∈ demo2.history ∧
+    (⟨0, 1, .cache (.store 1000 kA [2] [tT] 2000), 10, some (14, .ok (.cache .done))⟩ : Rec) ∈ demo2.history := by decide +kernel
 
 /-- a reachable configuration that is not finished (hypothesis of `deadlock_free`): thread 0 holds
 `access_lock` exclusively, thread 1 is blocked on it, thread 0 can move -/
-example : (run (Config.init (State.init 0) demoProgs) [0, 0, 1]).allDone = false ∧
-    (stepThread (run (Config.init (State.init 0) demoProgs) [0, 0, 1]) 1).isNone = true ∧
-    (stepThread (run (Config.init (State.init 0) demoProgs) [0, 0, 1]) 0).isSome = true := by decide +kernel
+example : (run (Config.init s0 demoProgs) [0, 0, 1]).allDone = false ∧
+    (stepThread (run (Config.init s0 demoProgs) [0, 0, 1]) 1).isNone = true ∧
+    (stepThread (run (Config.init s0 demoProgs) [0, 0, 1]) 0).isSome = true := by decide +kernel
+
+/-- handles: the owner holds one reference (`refs = 1`); two threads copy and drop a handle around
+a fetch, interleaved: no `del_ref` returns `true`, the count is back to 1 (hypotheses of
+`del_ref_true_iff_last` / an instance of `refs_counts_handles`) -/
+private def demo3 : Config :=
+  run (Config.init ⟨State.init 0, 1⟩ [[.addRef, .cache (.fetch 1000 kA), .delRef], [.addRef, .cache .stats, .delRef]])
+    ((List.replicate 20 [0, 1]).flatten ++ List.replicate 20 0 ++ List.replicate 20 1)
+example : demo3.allDone = true ∧ demo3.s.refs = 1 ∧
+    (demo3.history.filter fun r => r.op == .delRef).map (fun r => r.resp.map (·.2)) =
+      [some (.ok (.dropped false)), some (.ok (.dropped false))] := by decide +kernel
 
 end Examples
 
